@@ -22,13 +22,17 @@ def main():
     for (name, pid, out), d in zip(results, dirs):
         mp = os.path.join(d, 'meta.json')
         meta = json.load(open(mp))
+        if '_superseded' in out:
+            breaks = ' '.join(meta.get('breaks', '').split())
+            print(f'| {name} | {(breaks[:147] + "…") if len(breaks) > 150 else breaks} | *superseded*: no longer a violation after fix 3d1ecfe (F3); kept for the record, not counted | {"own check" if meta.get("detection_at_first_try", {}).get("own_check") else "other check" if meta.get("detection_at_first_try", {}).get("any_check") else "missed"} |')
+            continue
         v = {p: r[1] for p, r in out.items() if r[0] == 'VIOLATION'}
         first = meta.get('detection_at_first_try', {})
         ft = 'own check' if first.get('own_check') else ('other check' if first.get('any_check') else 'missed')
         breaks = ' '.join(meta.get('breaks', '').split())
         if len(breaks) > 150:
             breaks = breaks[:147] + '…'
-        by = '; '.join(f'{p}: `{r[0].split(" [")[0].split(" ", 1)[0]}` {r[0].split(" ", 2)[1].rsplit(".", 1)[-1]}' for p, r in sorted(v.items())) or '**not reported** (declined, see text)'
+        by = '; '.join(f'{p}: `{r[0].split(" [")[0].split(" ", 1)[0]}` {r[0].split(" ", 2)[1].rsplit(".", 1)[-1]}' for p, r in sorted(v.items())) or ('**not reported** — a check stops with exit 2: ' + '; '.join(f'{p}' for p, r in sorted(out.items()) if r[0] == 'ERR') if any(r[0] == 'ERR' for r in out.values()) else '**not reported** (declined, see text)')
         print(f'| {name} | {breaks.replace("|", "/")} | {by} | {ft} |')
         meta['detection_now'] = {'own_check': pid in v, 'any_check': bool(v), 'checks': {p: r for p, r in sorted(v.items())}}
         with open(mp, 'w') as f:
